@@ -326,22 +326,23 @@ func Reconfig(w *world.World, raws []json.RawMessage) ([]interface{}, error) {
 			var errs int32
 			stop := make(chan struct{})
 			var wg sync.WaitGroup
-			wg.Add(1)
-			go func() {
-				defer wg.Done()
-				for {
-					select {
-					case <-stop:
-						return
-					default:
+			for g := 0; g < 6; g++ {
+				wg.Add(1)
+				go func() {
+					defer wg.Done()
+					for {
+						select {
+						case <-stop:
+							return
+						default:
+						}
+						st, _, _, err := rcGet(livePorts["A"], "/b/x", "")
+						if err != nil || st != 200 {
+							atomic.AddInt32(&errs, 1)
+						}
 					}
-					st, _, _, err := rcGet(livePorts["A"], "/b/x", "")
-					if err != nil || st != 200 {
-						atomic.AddInt32(&errs, 1)
-					}
-					time.Sleep(2 * time.Millisecond)
-				}
-			}()
+				}()
+			}
 			hadB := false
 			for _, s := range c.Configs[0].Servers {
 				if s.Addr == "B" {
